@@ -185,6 +185,59 @@ def _ec_cert():
     return _EC_CACHE[0]
 
 
+class TicketStore:
+    """Server-side session-ticket store (what examples/http3_server.SessionTicketStore does)."""
+
+    def __init__(self):
+        self.tickets = {}
+        self.client = []
+        self.fetched = 0
+
+    def add(self, ticket):
+        self.tickets[ticket.ticket] = ticket
+
+    def pop(self, label):
+        self.fetched += 1
+        return self.tickets.pop(label, None)
+
+
+def prime_session(opts: dict):
+    """A first, lossless connection with the same configuration (plus the overrides in
+    opts['resume']) whose only purpose is to obtain a session ticket: the client remembers the
+    server's transport parameters of *that* connection for 0-RTT in the next one.
+    Returns (ticket or None, TicketStore)."""
+    from aioquic.quic.connection import QuicConnection
+
+    popts = dict(opts)
+    popts.update(opts.get("resume") or {})
+    popts.pop("resume", None)
+    ccfg, scfg = make_configs(popts)
+    store = TicketStore()
+    client = QuicConnection(configuration=ccfg, session_ticket_handler=store.client.append)
+    apply_conn_opts(client, popts, "client")
+    client.connect(SERVER_ADDR, now=0.0)
+    server = None
+    now = 0.0
+    for _ in range(30):
+        for data, _a in client.datagrams_to_send(now=now):
+            if server is None:
+                server = QuicConnection(configuration=scfg, original_destination_connection_id=data[6 : 6 + data[5]],
+                                        session_ticket_handler=store.add, session_ticket_fetcher=store.pop)
+                apply_conn_opts(server, popts, "server")
+            server.receive_datagram(data, CLIENT_ADDR, now=now)
+        if server is not None:
+            for data, _a in server.datagrams_to_send(now=now):
+                client.receive_datagram(data, SERVER_ADDR, now=now)
+        now += 0.01
+        while client.next_event() is not None:
+            pass
+        while server is not None and server.next_event() is not None:
+            pass
+        if store.client:
+            break
+    return (store.client[0] if store.client else None), store
+
+
 def apply_conn_opts(conn, opts, side):
     """Workload setup that QuicConfiguration does not expose: the stream-count limits an endpoint
     advertises (max_streams_bidi_<side>, max_streams_uni_<side>). Set before the handshake."""
@@ -301,6 +354,20 @@ class SimNet:
         self.key_hook = key_hook
         self.ccfg, self.scfg = ccfg, scfg
         self.tap = Tap({"client": ccfg.connection_id_length, "server": scfg.connection_id_length}) if tap else None
+        self.ticket_store = None
+        self.resumed_with_ticket = False
+        server_conn_kwargs = dict(server_conn_kwargs or {})
+        if opts.get("resume") is not None:
+            # session resumption / 0-RTT: a priming connection produced the ticket the client now offers
+            ticket, store = prime_session(opts)
+            self.ticket_store = store
+            if ticket is not None:
+                ccfg.session_ticket = ticket
+                self.resumed_with_ticket = True
+            client_conn_kwargs = dict(client_conn_kwargs or {})
+            client_conn_kwargs.setdefault("session_ticket_handler", store.client.append)
+            server_conn_kwargs.setdefault("session_ticket_handler", store.add)
+            server_conn_kwargs.setdefault("session_ticket_fetcher", store.pop)
         self.client = Endpoint("client", QuicConnection(configuration=ccfg, **(client_conn_kwargs or {})), CLIENT_ADDR)
         apply_conn_opts(self.client.conn, opts, "client")
         if key_hook:
